@@ -153,7 +153,7 @@ func TestVerif_C04(t *testing.T) {
 		if !ok || res.nViol() > before || h.rejected > 0 {
 			a.stop(vStopWatchdog)
 			a = nil
-			if res.nViol() > 400 {
+			if res.giveUp(400) {
 				break
 			}
 		}
